@@ -661,7 +661,55 @@ class _NpFacade:
         return _np.allclose(a, b, *aa, **k)
 
 
+class _MinMaxUfunc:
+    """np.minimum / np.maximum: callable, with .accumulate/.reduce as the code uses them."""
+
+    def __init__(self, facade, name):
+        self._call = getattr(_NpFacade, "_" + name)
+        self._facade = facade
+        self._real = getattr(_np, name)
+        self._lt = name == "minimum"
+
+    def __call__(self, *a, **k):
+        return self._call(self._facade, *a, **k)
+
+    def _pick(self, x, y):
+        if _is_nan(x) or _is_nan(y):
+            return float("nan")
+        return core.If(x <= y, x, y) if self._lt else core.If(x >= y, x, y)
+
+    def accumulate(self, arr, *a, **k):
+        if has_sym(arr) and not a and not k:
+            xs = _elems(arr)
+            out = []
+            for x in xs:
+                out.append(x if not out else self._pick(out[-1], x))
+            return _like(arr, out)
+        if isinstance(arr, (_np.ndarray, _pd.Series)) and arr.dtype == object:
+            arr = _np.asarray(arr, dtype=float)
+        return self._real.accumulate(arr, *a, **k)
+
+    def reduce(self, arr, *a, **k):
+        if has_sym(arr) and not a and not k:
+            xs = _elems(arr)
+            cur = xs[0]
+            for x in xs[1:]:
+                cur = self._pick(cur, x)
+            return cur
+        return self._real.reduce(arr, *a, **k)
+
+    def __getattr__(self, name):
+        return getattr(self._real, name)
+
+
+_NpFacade._minimum = _NpFacade.minimum
+_NpFacade._maximum = _NpFacade.maximum
+del _NpFacade.minimum
+del _NpFacade.maximum
+
 np = _NpFacade()
+np.minimum = _MinMaxUfunc(np, "minimum")
+np.maximum = _MinMaxUfunc(np, "maximum")
 
 
 class _MathFacade:
